@@ -22,6 +22,20 @@ Ids implemented (C01 unless noted):
   std-predicate-as-comparison-operand  static (C09): LIKE / IN predicate used as an operand of a comparison
   std-floor-ceiling-not-sql       static (C09): floor()/ceiling() in the standard dialect
   duration-empty                  static (C09): a duration literal without components
+ORM properties (C02 / C03 / C04 / C15):
+  django-concat-null-as-empty     dynamic: some COALESCE(x, '') (Django's Concat) reads a NULL x as the empty string
+  sa-div-true-division            static: SQLAlchemy back end and the filter uses `div`
+  sa-function-missing-on-sqlite   static: SQLAlchemy back end and the filter uses indexof / concat (strpos / concat do not
+                                  exist in this SQLite)
+  sa-boolean-literal-case         static: keyword-case obligation of a filter with a boolean literal (SQLAlchemy)
+  sa-like-literal-wildcards       static: SQLAlchemy back end, contains/startswith/endswith literal with % or _
+  sa-null-literal-on-left         static: SQLAlchemy back end, `null eq x`
+  django-all-lambda-inverted      static: Django back end and the filter uses all(x: p)
+  sa-to-one-inner-join            static: SQLAlchemy back end and the filter navigates a to-one path (also as the owner of
+                                  a collection)
+  sa-outer-column-in-lambda       static: SQLAlchemy back end, a column of the root used inside a lambda body
+  sa-lambda-inner-join-dropped    static: SQLAlchemy back end, a to-one path inside a lambda body
+  sa-self-referential-navigation  static: SQLAlchemy back end, navigation through the self-referential boss/minions
 """
 from __future__ import annotations
 
@@ -34,19 +48,25 @@ from . import values as V
 
 
 def _not_case_region(ctx) -> Any:
-    conds = [z3.Or(lk["null"], lk["ci"] == lk["cs"]) for lk in ctx["likes"]]
+    conds = [z3.Or(lk["null"], lk["ci"] == lk["cs"]) for lk in ctx.get("likes", [])]
     return z3.And(conds) if conds else V.TRUE
 
 
 def _not_field_wildcards(ctx) -> Any:
     conds = []
-    for lk in ctx["likes"]:
+    for lk in ctx.get("likes", []):
         for v in lk["dyn"]:
             conds.append(z3.Or(v.null, z3.Not(V.has_char(v, [V.PCT, V.USC]))))
     return z3.And(conds) if conds else V.TRUE
 
 
+def _not_coalesced_null(ctx) -> Any:
+    conds = [z3.Not(n) for n in ctx.get("coalesced", [])]
+    return z3.And(conds) if conds else V.TRUE
+
+
 DYNAMIC: Dict[str, Callable[[dict], Any]] = {
+    "django-concat-null-as-empty": _not_coalesced_null,
     "sqlite-like-ascii-case": _not_case_region,
     "like-field-pattern-wildcards": _not_field_wildcards,
 }
@@ -78,6 +98,24 @@ STATIC: Dict[str, Callable[[dict], bool]] = {
     "std-floor-ceiling-not-sql": _floor_ceiling_std,
     "duration-empty": _dur_empty,
 }
+
+def _is_sa(ctx) -> bool:
+    return str(ctx.get("backend", "")).startswith("sa")
+
+
+STATIC.update({
+    # ---- ORM back ends (C02 / C03 / C04 / C15); ctx carries backend, ob, variant
+    "sa-div-true-division": lambda ctx: _is_sa(ctx) and "op:div" in ctx["features"],
+    "sa-function-missing-on-sqlite": lambda ctx: _is_sa(ctx) and ("fn:indexof" in ctx["features"] or "fn:concat" in ctx["features"]),
+    "sa-boolean-literal-case": lambda ctx: _is_sa(ctx) and ctx.get("ob") == "case" and "bool-literal" in ctx["features"],
+    "sa-like-literal-wildcards": lambda ctx: _is_sa(ctx) and "like-literal-wildcard" in ctx["features"],
+    "sa-null-literal-on-left": lambda ctx: _is_sa(ctx) and "null-on-left" in ctx["features"],
+    "django-all-lambda-inverted": lambda ctx: ctx.get("backend") == "django" and "lambda:all" in ctx["features"],
+    "sa-to-one-inner-join": lambda ctx: _is_sa(ctx) and ("path" in ctx["features"] or "collection-via-to-one" in ctx["features"]),
+    "sa-outer-column-in-lambda": lambda ctx: _is_sa(ctx) and "outer-ref-in-lambda" in ctx["features"],
+    "sa-lambda-inner-join-dropped": lambda ctx: _is_sa(ctx) and "path-inside-lambda" in ctx["features"],
+    "sa-self-referential-navigation": lambda ctx: _is_sa(ctx) and "self-path" in ctx["features"],
+})
 
 NEEDS_LIKE_TRACKING = set(DYNAMIC)
 
